@@ -1464,9 +1464,10 @@ hwloc__export_synthetic_memory_children(struct hwloc_topology * topology, unsign
     while (numanode && numanode->type != HWLOC_OBJ_NUMANODE) {
       if (verbose && numanode->memory_arity > 1) {
         static int warned = 0;
-        if (!warned)
+        if (!warned) {
           fprintf(stderr, "Ignoring non-first memory children at non-first level of memory hierarchy.\n");
-        warned = 1;
+          warned = 1;
+        }
       }
       numanode = numanode->memory_first_child;
     }
